@@ -31,7 +31,7 @@ func TestVerif_C02(t *testing.T) {
 		return
 	}
 	rapid.Check(t, func(t *rapid.T) {
-		g := newGM(t, []string{"a", "b"}, kit.GenCfg{})
+		g := newGM(t, []string{"a", "b"}, kit.GenCfg{Nulls: true})
 		defer g.close()
 		var curs []*cursor
 		for i := 0; i < 4; i++ {
